@@ -6,11 +6,11 @@
    no line holds another of str.splitlines' break characters. *)
 From Coq Require Import ZArith List Bool Lia.
 From Mistletoe Require Import Base.Sx Base.PyStr Base.PyText Gen.GenTables Gen.GenConfig Gen.GenEscapes Model.Fillers Model.Tree Model.CoreTokens Model.Block Model.Build
-     Model.DocLines Model.HtmlRenderer Model.Parser Proofs.PlainProse Proofs.Prose Proofs.ProseLines Proofs.ListLaw Proofs.FenceLaw Spec.Fragment Proofs.InertProse Proofs.FragmentP Proofs.FragmentDoc Proofs.EmphSimple Proofs.EmphSentence Proofs.RefSentence Proofs.LinkSentence Proofs.MixPhrases.
+     Model.DocLines Model.HtmlRenderer Model.Parser Proofs.PlainProse Proofs.Prose Proofs.ProseLines Proofs.ListLaw Proofs.FenceLaw Spec.Fragment Proofs.InertProse Proofs.FragmentP Proofs.FragmentDoc Proofs.EmphSimple Proofs.EmphSentence Proofs.RefSentence Proofs.LinkSentence Proofs.MixPhrases Proofs.CodeSpan.
 Import ListNotations.
 Local Open Scope Z_scope.
 
-Definition is_fpara (t : ftree) : bool := match t with FPara _ _ _ | FEm _ _ _ _ _ _ | FLink _ _ _ _ _ | FSent _ _ _ => true | _ => false end.
+Definition is_fpara (t : ftree) : bool := match t with FPara _ _ _ | FEm _ _ _ _ _ _ | FLink _ _ _ _ _ | FSent _ _ _ | FTick _ _ _ _ => true | _ => false end.
 
 (* the HTML of one segment of a sentence: the phrase or the link, then the text after it *)
 Definition seg_html (o : hopts) (g : mseg) : str :=
@@ -65,6 +65,9 @@ Fixpoint html_f (o : hopts) (tight : bool) (t : ftree) : str :=
   | FSent c0 t0 gs =>
     let inner := escape_html_text o (c0 :: t0) ++ concat (map (seg_html o) gs) in
     if tight then inner else $"<p>" ++ inner ++ $"</p>"
+  | FTick c0 pre code post =>      (* the content of the span, one space stripped on each side when both are there, escaped as text *)
+    let inner := escape_html_text o (c0 :: pre) ++ $"<code>" ++ escape_html_text o (code_content code) ++ $"</code>" ++ escape_html_text o post in
+    if tight then inner else $"<p>" ++ inner ++ $"</p>"
   end
 with html_lis (o : hopts) (tight : bool) (t : ftree) : str :=      (* the items of the rest of a list *)
   match t with
@@ -111,7 +114,7 @@ Proof. induction ts as [|t r IH]; [reflexivity|]. cbn [tok_seq map blank_tok app
 
 Lemma tok_of_chain_is_list md : forall t, is_item t = true -> wf_b t = true -> exists s lo items, tok_of md t = List s lo items.
 Proof.
-  induction t as [| | | mk pad ts | mk pad ts bl next IH | | | | | ]; intros Hi Hw; try discriminate.
+  induction t as [| | | mk pad ts | mk pad ts bl next IH | | | | | | ]; intros Hi Hw; try discriminate.
   - cbn [tok_of]. eexists. eexists. eexists. reflexivity.
   - cbn [wf_b] in Hw. repeat rewrite andb_true_iff in Hw. destruct Hw as [[[_ Hin] _] Hwn].
     destruct (IH Hin Hwn) as (s & lo & items & E). cbn [tok_of]. rewrite E. eexists. eexists. eexists. reflexivity.
@@ -119,7 +122,7 @@ Qed.
 
 Lemma is_para_tok t : wf_b t = true -> match tok_of false t with Paragraph _ => true | _ => false end = is_fpara t.
 Proof.
-  intros Hw. destruct t as [ | | | |mk pad ts bl next| | | | | ]; try reflexivity.
+  intros Hw. destruct t as [ | | | |mk pad ts bl next| | | | | | ]; try reflexivity.
   destruct (tok_of_chain_is_list false (FMore mk pad ts bl next) eq_refl Hw) as (s & lo & items & ->). reflexivity.
 Qed.
 
@@ -256,6 +259,26 @@ Proof.
     rewrite !serialize_app, E. cbn. rewrite ?app_nil_r, <- ?app_assoc. reflexivity.
 Qed.
 
+Lemma html_tick o sup c0 pre code post :
+  serialize (render o sup false (tok_of false (FTick c0 pre code post))) = html_f o sup (FTick c0 pre code post).
+Proof.
+  cbn [tok_of html_f]. cbv zeta.
+  assert (E : serialize (flat_map (render o sup false) (RawText (c0 :: pre) :: code_of code :: raw_if post)) =
+              escape_html_text o (c0 :: pre) ++ $"<code>" ++ escape_html_text o (code_content code) ++ $"</code>" ++ escape_html_text o post).
+  { change (RawText (c0 :: pre) :: code_of code :: raw_if post) with ([RawText (c0 :: pre)] ++ [code_of code] ++ raw_if post).
+    rewrite !flat_map_app. unfold serialize. rewrite !flat_map_app.
+    fold (serialize (flat_map (render o sup false) (raw_if post))). rewrite ser_raw_if.
+    rewrite code_of_eq. cbn [flat_map render c_content]. unfold wrap.
+    cbn [flat_map ser_item app]. change (fill o html_inline_code_inner (code_content code)) with (escape_html_text o (code_content code)).
+    change (fill o GenEscapes.html_raw_text (c0 :: pre)) with (escape_html_text o (c0 :: pre)). cbn. rewrite ?app_nil_r, <- ?app_assoc. reflexivity. }
+  destruct sup.
+  - cbn [render]. cbv iota. exact E.
+  - cbn [render]. cbv iota. unfold wrap.
+    set (X := flat_map (render o false false) (RawText (c0 :: pre) :: code_of code :: raw_if post)) in *.
+    change (IOpen $"p" [] :: X ++ [IClose $"p"]) with ([IOpen $"p" []] ++ X ++ [IClose $"p"]).
+    rewrite !serialize_app, E. cbn. rewrite ?app_nil_r, <- ?app_assoc. reflexivity.
+Qed.
+
 Lemma ser_li o sup a ch : ch <> [] ->
   serialize (render o sup false (ListItem a ch)) =
   $"<li>" ++ (if sup && first_is_paragraph ch then [] else [10]) ++ serialize (join_items [nl] (map (render o sup false) ch)) ++
@@ -277,7 +300,7 @@ Proof.
             serialize (join_items [nl] (map (render o sup false) (tok_seq false ts))) = join [10] (map (html_f o sup) ts)).
   { intros ts sup Hne Hall Hd. rewrite tok_seq_plain, map_map. rewrite (serialize_join (fun x => render o sup false (tok_of false x))).
     f_equal. apply map_ext_in. intros x Hx. rewrite forallb_forall in Hall. rewrite Forall_forall in Hd. apply IH; [apply Hd; exact Hx|apply Hall; exact Hx]. }
-  induction t as [| | | mk pad ts | mk pad ts bl next IHn | | | | | ]; intros Hi Hw Hd; try discriminate.
+  induction t as [| | | mk pad ts | mk pad ts bl next IHn | | | | | | ]; intros Hi Hw Hd; try discriminate.
   - cbn [wf_b] in Hw. repeat rewrite andb_true_iff in Hw. destruct Hw as [[[[[[Hmk Hp1] Hp4] Hs] Hall] Hg] Hth].
     apply marker_ok_reflect in Hmk.
     assert (Hne : ts <> []) by (destruct ts; [discriminate|discriminate]).
@@ -310,11 +333,11 @@ Lemma html_fragment o : forall f t sup, (depth t <= f)%nat -> wf_b t = true ->
   serialize (render o sup false (tok_of false t)) = html_f o sup t.
 Proof.
   induction f as [|f IH]; intros t sup Hd Hw.
-  - destruct t as [c body more|ch n content|ts|mk pad ts|mk pad ts bl next|lv hc hb|rc rn|e0 epre ech edbl ew epost|l0 lpre lw ldest lpost|s0 st0' sgs]; [| |cbn [depth] in Hd; lia|cbn [depth] in Hd; lia|cbn [depth] in Hd; lia| |reflexivity|apply html_em|apply html_link|apply html_sent].
+  - destruct t as [c body more|ch n content|ts|mk pad ts|mk pad ts bl next|lv hc hb|rc rn|e0 epre ech edbl ew epost|l0 lpre lw ldest lpost|s0 st0' sgs|k0 kpre kcode kpost]; [| |cbn [depth] in Hd; lia|cbn [depth] in Hd; lia|cbn [depth] in Hd; lia| |reflexivity|apply html_em|apply html_link|apply html_sent|apply html_tick].
     + apply html_para.
     + cbn [tok_of render html_f f_language f_content]. cbn. rewrite ?app_nil_r. reflexivity.
     + apply html_head. cbn [wf_b] in Hw. repeat rewrite andb_true_iff in Hw. destruct Hw as [[[[[[H1 H2] _] _] _] _] _]. apply Nat.leb_le in H1, H2. lia.
-  - destruct t as [c body more|ch n content|ts|mk pad ts|mk pad ts bl next|lv hc hb|rc rn|e0 epre ech edbl ew epost|l0 lpre lw ldest lpost|s0 st0' sgs]; [| | | | |apply html_head; cbn [wf_b] in Hw; repeat rewrite andb_true_iff in Hw; destruct Hw as [[[[[[H1 H2] _] _] _] _] _]; apply Nat.leb_le in H1, H2; lia|reflexivity|apply html_em|apply html_link|apply html_sent].
+  - destruct t as [c body more|ch n content|ts|mk pad ts|mk pad ts bl next|lv hc hb|rc rn|e0 epre ech edbl ew epost|l0 lpre lw ldest lpost|s0 st0' sgs|k0 kpre kcode kpost]; [| | | | |apply html_head; cbn [wf_b] in Hw; repeat rewrite andb_true_iff in Hw; destruct Hw as [[[[[[H1 H2] _] _] _] _] _]; apply Nat.leb_le in H1, H2; lia|reflexivity|apply html_em|apply html_link|apply html_sent|apply html_tick].
     + apply html_para.
     + cbn [tok_of render html_f f_language f_content]. cbn. rewrite ?app_nil_r. reflexivity.
     + cbn [wf_b] in Hw. repeat rewrite andb_true_iff in Hw. destruct Hw as [[Hs Hall] Hg].
@@ -357,7 +380,7 @@ Qed.
 
 Lemma html_f_starts o t : exists r, html_f o false t = 60 :: r.
 Proof.
-  destruct t as [c body more|ch n content|ts|mk pad ts|mk pad ts bl next|lv hc hb|rc rn|e0 epre ech edbl ew epost|l0 lpre lw ldest lpost|s0 st0' sgs]; cbn [html_f]; try (eexists; reflexivity);
+  destruct t as [c body more|ch n content|ts|mk pad ts|mk pad ts bl next|lv hc hb|rc rn|e0 epre ech edbl ew epost|l0 lpre lw ldest lpost|s0 st0' sgs|k0 kpre kcode kpost]; cbn [html_f]; try (eexists; reflexivity);
   (destruct mk as [b|ds d]; cbn [list_open]; [eexists; reflexivity|]; destruct (int_of_digits ds =? 1); eexists; reflexivity).
 Qed.
 
@@ -370,7 +393,7 @@ Qed.
 (* Document(lines), rendered to HTML *)
 Theorem fragment_html cfg o t :
   fragment_config (cfg_block cfg) = true -> prose_spans (cfg_span cfg) = true -> emph_spans (cfg_span cfg) = true ->
-  inert_spans (cfg_span cfg) = true -> ref_spans (cfg_span cfg) = true -> wf_b t = true ->
+  inert_spans (cfg_span cfg) = true -> leaf_spans (cfg_span cfg) = true -> wf_b t = true ->
   render_html o (fst (fst (parse_lines cfg (text_of (spell t))))) = html_f o false t ++ [10].
 Proof.
   intros Hc Hq He Hi Hr Hw. rewrite (fragment_document cfg t Hc Hq He Hi Hr Hw).
@@ -381,7 +404,7 @@ Qed.
 (* a whole document of several blocks *)
 Theorem fragment_seq_html cfg o ts :
   fragment_config (cfg_block cfg) = true -> prose_spans (cfg_span cfg) = true -> emph_spans (cfg_span cfg) = true ->
-  inert_spans (cfg_span cfg) = true -> ref_spans (cfg_span cfg) = true -> seq_ok_b ts = true -> forallb wf_b ts = true ->
+  inert_spans (cfg_span cfg) = true -> leaf_spans (cfg_span cfg) = true -> seq_ok_b ts = true -> forallb wf_b ts = true ->
   render_html o (fst (fst (parse_lines cfg (text_of (join_blank (map spell ts)))))) = join [10] (map (html_f o false) ts) ++ [10].
 Proof.
   intros Hc Hq He Hi Hr Hs Hw. rewrite (fragment_seq_document cfg ts Hc Hq He Hi Hr Hs Hw).
